@@ -50,6 +50,33 @@ class Hang(Exception):
     pass
 
 
+class VTimer(asyncio.TimerHandle):
+    """timers due at the same (virtual) instant fire in the order in which they were created: asyncio orders its
+    heap by `when` only, so ties would otherwise be broken by the accidental shape of the heap, and two runs that
+    differ in one job's outcome could resolve the same tie differently (a false difference for C06 / C10 pairs)"""
+    __slots__ = ("_seq",)
+
+    def _key(self):
+        return (self._when, self._seq)
+
+    def __lt__(self, other):
+        return self._key() < other._key() if isinstance(other, VTimer) else NotImplemented
+
+    def __le__(self, other):
+        return self._key() <= other._key() if isinstance(other, VTimer) else NotImplemented
+
+    def __gt__(self, other):
+        return self._key() > other._key() if isinstance(other, VTimer) else NotImplemented
+
+    def __ge__(self, other):
+        return self._key() >= other._key() if isinstance(other, VTimer) else NotImplemented
+
+    def __eq__(self, other):
+        return self is other
+
+    __hash__ = asyncio.TimerHandle.__hash__
+
+
 class VLoop(asyncio.SelectorEventLoop):
     """virtual time: when nothing is ready, jump to the next timer; nothing ready and no timer = deadlock"""
 
@@ -63,6 +90,15 @@ class VLoop(asyncio.SelectorEventLoop):
 
     def time(self):
         return self._vt
+
+    def call_at(self, when, callback, *args, context=None):
+        self._check_closed()
+        self._tseq = getattr(self, "_tseq", 0) + 1
+        timer = VTimer(when, callback, args, self, context)
+        timer._seq = self._tseq
+        heapq.heappush(self._scheduled, timer)
+        timer._scheduled = True
+        return timer
 
     def _run_once(self):
         self.iterations += 1
